@@ -39,6 +39,19 @@ theorem register_perm (excl : Nat → Nat → Bool) (files files' : List (List S
   rw [register_all_inserted excl files hn] at hp ⊢
   exact find_perm hp h ns name
 
+/-- T1b. Whether a project is error-free does not depend on the file order either (so T1's hypothesis
+    may be checked on any order), and in an error-free project no order refuses a symbol: every
+    order registers exactly as many symbols as the files contain. -/
+theorem error_free_perm (excl : Nat → Nat → Bool) (files files' : List (List Sym))
+    (p : files'.Perm files) :
+    (NoConflict excl files'.flatten ↔ NoConflict excl files.flatten) ∧
+    (NoConflict excl files.flatten → (registerAll excl files').length = files.flatten.length) := by
+  have pf : files'.flatten.Perm files.flatten := p.flatten
+  refine ⟨⟨noConflict_perm excl pf.symm, noConflict_perm excl pf⟩, ?_⟩
+  intro h
+  rw [register_all_inserted excl files' (noConflict_perm excl pf h)]
+  exact pf.length_eq
+
 /-- The hypothesis is necessary: with a duplicated key the winner depends on the order
     (that project is not error-free: the loser is reported as a duplicated identifier). -/
 theorem register_perm_needs_disjoint :
